@@ -112,7 +112,8 @@ def gen_cli_scenario(rng, sid, base, variant, collisions):
     content = bytes([97 + rng.below(26) for _ in range(5 + rng.below(20))])
     members = [("a/keep", 0)] + [("b/v%d" % i, i + 1) for i in range(len(collisions))]
     scn = A.Scenario(sid, base, [{"content": content, "members": members}],
-                     move_dir={"outside": "out", "inside": "w/zz_out", "relative": "out_rel"}[variant])
+                     move_dir={"outside": "out", "inside": "w/zz_out", "relative": "out_rel", "other_mount": "out"}[variant])
+    scn.fake_mount = (variant == "other_mount")     # hook FCLONES_VERIF_MOUNTS: DIR on "another file system" => use_rename = false
     if variant == "relative":
         scn.cwd = scn.base
         scn.dir_cli = "../%s/out_rel" % sid
@@ -142,20 +143,29 @@ def explore(env, scn, quick):
     groups = scn.make_report(env["fclones"])
     scn.build()
     inv0 = A.inventory(scn.base)
-    cmds = A.derive_cmds("move", groups, inv0, scn.dir_arg())
+    cmds = c05.scn_cmds(scn, "move", groups, inv0)
     out = []
     c0 = c05.run_case(env, scn, "move", {}, inv0, cmds)
     out.append(c0)
     m = max([int(f[0]) for f in c0.res["trace"]] or [0])
     renames = [x["ks"][0] for x in c0.calls if x["kind"] == "rename"]
+    in_copy = {k for x in c0.calls if x["kind"] == "copy" for k in x["ks"]}
     for kr in renames:
-        out.append(c05.run_case(env, scn, "move", {"fail": (kr, "EXDEV")}, inv0, cmds))
+        cb = c05.run_case(env, scn, "move", {"fail": (kr, "EXDEV")}, inv0, cmds)
+        out.append(cb)
+        # a second failure inside the std::fs::copy of the fallback (open of the target, fchmod, copy_file_range)
+        for x in cb.calls:
+            if x["kind"] == "copy" and x["ks"][0] > kr:
+                for k2 in x["ks"]:
+                    for e in (c05.ERRNOS if not quick else ["EPERM", "EIO"]):
+                        out.append(c05.run_case(env, scn, "move", {"fail": (kr, "EXDEV"), "fail2": (k2, e)}, inv0, cmds))
+                break
     # every rename fails at once is not expressible with two slots; the pair (first, second) is
     if len(renames) >= 2:
         out.append(c05.run_case(env, scn, "move", {"fail": (renames[0], "EXDEV"), "fail2": (renames[1] + 0, "EXDEV")}, inv0, cmds))
     for k in range(1, m + 1):
-        e = c05.ERRNOS[k % 5]
-        out.append(c05.run_case(env, scn, "move", {"fail": (k, e)}, inv0, cmds))
+        for e in (c05.ERRNOS if k in in_copy else [c05.ERRNOS[k % 5]]):
+            out.append(c05.run_case(env, scn, "move", {"fail": (k, e)}, inv0, cmds))
         if not quick:
             out.append(c05.run_case(env, scn, "move", {"kill": (k, "after")}, inv0, cmds))
     return out
@@ -207,7 +217,7 @@ def cli_oracle(c):
 def run(ctx):
     ctx.rule = ("(1) API: random (DIR, path) pairs over components with spaces, quotes, backslash, colon, non-UTF-8 bytes, dots, '..', "
                 "'/' alone, relative paths; a case = one pair; non-trivial = the source has at least one component after the root. "
-                "(2) CLI: one group of 1 retained + 2 victims, DIR outside / inside the tree / relative with '..', each victim's target "
+                "(2) CLI: one group of 1 retained + 2 victims, DIR outside / inside the tree / relative with '..' / registered as another mount point (use_rename = false), each victim's target "
                 "pre-populated with {nothing, file, directory, dangling symlink (destination directory missing / present), symlink to a file}; fault-free, each rename failed with "
                 "EXDEV (copy branch), one failure at every call; a case = one run of the binary under the shim")
     ctx.assumptions = ["no symbolic links in the directory part of the paths; symlink targets absolute",
@@ -231,7 +241,7 @@ def run(ctx):
         groups = scn.make_report(env["fclones"])
         scn.build()
         inv0 = A.inventory(scn.base)
-        cmds = A.derive_cmds("move", groups, inv0, scn.dir_arg())
+        cmds = c05.scn_cmds(scn, "move", groups, inv0)
         spec = {k: (tuple(v) if isinstance(v, list) else v) for k, v in rp["fault"].items()}
         cases = [c05.run_case(env, scn, "move", spec, inv0, cmds)]
         for c in cases:
@@ -243,7 +253,7 @@ def run(ctx):
         if not ctx.quick:
             combos += [(x, y) for x in COLLISIONS for y in COLLISIONS if (x, y) not in combos]
         n = 0
-        for variant in ("outside", "inside", "relative"):
+        for variant in ("outside", "inside", "relative", "other_mount"):
             for col in combos:
                 seed = ctx.rng.next()
                 scn = gen_cli_scenario(core.SplitMix64(seed), "m%d" % n, ctx.scratch, variant, list(col))
@@ -274,6 +284,9 @@ def run(ctx):
             return d
         for sig, text in cli_oracle(c):
             ctx.violation(sig, "C18 violated by the implementation: " + text, payload(), found_input=True)
+        if c.extra.get("abstraction_error"):
+            corr.append((c, "trace", "the libc trace could not be abstracted to the model's calls: " + c.extra["abstraction_error"]))
+            continue
         try:
             mo = A.parse_model_out(o)
         except Exception as e:
